@@ -163,6 +163,31 @@ def _signatures(repo):
         return {}
 
 
+def _local_order(fn):
+    a = fn.args
+    params = {x.arg for x in a.posonlyargs + a.args + a.kwonlyargs} | ({a.vararg.arg} if a.vararg else set()) | ({a.kwarg.arg} if a.kwarg else set())
+    order = []
+    for n in normal._source_order(fn):
+        if isinstance(n, ast.Name) and isinstance(n.ctx, ast.Store) and n.id not in params and n.id not in order:
+            order.append(n.id)
+    return order
+
+
+def rename_back(fn, ref_fn):
+    new_order, ref_order = _local_order(fn), _local_order(ref_fn)
+    gone = [n for n in ref_order if n not in new_order]
+    fresh = [n for n in new_order if n not in ref_order]
+    if not gone or len(gone) != len(fresh):
+        return
+    used = {n.id for n in ast.walk(fn) if isinstance(n, ast.Name)} | {a.arg for a in ast.walk(fn) if isinstance(a, ast.arg)}
+    if any(g in used for g in gone):
+        return
+    mapping = dict(zip(fresh, gone))
+    for n in ast.walk(fn):
+        if isinstance(n, ast.Name) and n.id in mapping:
+            n.id = mapping[n.id]
+
+
 def restyle_calls(fn, ref_fn, sigs):
     '''calls in a changed function are spelled the way the reference function spells calls of the same callee: an argument the
     reference passes by keyword is passed by keyword, one it passes by position by position (same arguments to the same
@@ -268,6 +293,12 @@ def apply(repo):
                 t = ast.parse(ref[q]['source'])
                 light[q] = {n.id for n in ast.walk(t) if isinstance(n, ast.Name)} | {a.arg for a in ast.walk(t) if isinstance(a, ast.arg)}
             mods = {name: _Mod(ast.parse(m.source)) for name, m in repo.modules.items()}
+            # locals that were only renamed get their reference names back (same number of vanished and new names, paired in
+            # order of first appearance)
+            for name, m2 in mods.items():
+                for q, fn2, body2, cls2 in functions(m2.tree, name):
+                    if q in light:
+                        rename_back(fn2, ast.parse(ref[q]['source']).body[0])
             nz = normal.Normalizer(mods, inventory=inventory, only=set(summary['changed']), light=light)
             nz.run()
             sigs = _signatures(repo)
